@@ -5,6 +5,7 @@ Case = (algorithm, observation family, share_encoders, wrapper, seed, pre-save h
 (learn / mutate(kind) / append / act / reclone / restore(how)) is applied to a real agent so that architectures,
 hyper-parameters and optimizer state differ from the constructor defaults.  `restore` is an EARLIER checkpoint
 generation inside the history: the agent is saved and replaced by its restored self (how = load: `Algo.load`;
+keep: the same live agent goes on and is checkpointed again later, the restored copy follows in lock-step;
 inplace: `load_checkpoint` into another, differently built agent; rollback: the agent trains on and then
 loads its own file back), is compared with its pre-restore self (fingerprints of all state incl. wrapper
 attributes, greedy actions), and the rest of the history is applied in lock-step to the restored agent and to
@@ -369,6 +370,7 @@ class Case:
         self.round += 1
         path = os.path.join(tmp, f"generation{self.round}.pt")
         what = {"load": "Algo.load(path)", "inplace": "load_checkpoint(path) into another agent",
+                "keep": "periodic checkpoint of the live agent (which trains on), Algo.load(path)",
                 "rollback": "load_checkpoint(path) back into the agent that trained on"}[how]
         what = f"checkpoint generation {self.round} inside the history, {what}"
         v_before, p_before = values(g), plain_state(agent)
@@ -381,6 +383,12 @@ class Case:
             new = type(inner_of(agent)).load(path)
             self.lines += [f"ckpt load {blob}", f"heap discard {self.subject}"]
             self.subject, self.nagents = self.nagents, self.nagents + 1
+            twin = agent
+        elif how == "keep":
+            # the SAME live agent goes on (and is checkpointed again later); the restored copy follows in lock-step
+            new = type(inner_of(agent)).load(path)
+            self.lines += [f"ckpt load {blob}", f"heap discard {self.nagents}"]
+            self.nagents += 1
             twin = agent
         elif how == "inplace":
             new = self.build(self.seed + 2000 + self.round, other=True)
@@ -413,6 +421,8 @@ class Case:
                     self.problems.append(f"{what}: the restored agent picks different greedy actions")
                 if self.wrapper:          # acting in training mode moved the wrapper's statistics on both
                     gn = measure(new)
+                    if how == "keep":
+                        self.mirror(g, measure(agent), names, idx)
         else:
             if values(gn) != v_before:
                 bad = [n for n in names if values(gn).get(n) != v_before.get(n)]
@@ -423,6 +433,8 @@ class Case:
                     self.problems.append(f"{what}: {k} differs from the state at save time: "
                                          f"{short(p_before.get(k))} vs {short(pn.get(k))}")
         self.tags.append("restore-" + how)
+        if how == "keep" and twin is not None:
+            return agent, new, measure(agent)
         return new, twin, gn
 
     def _run_in(self, res, tmp):
@@ -444,7 +456,6 @@ class Case:
                 if twin is not None:
                     self.check_twin(twin, agent, twin_since, g)
                 twin = None
-                gc.collect()
                 if self.problems:
                     return
                 agent, twin, g = self.restore(agent, op[1], tmp, g, names, idx)
@@ -491,7 +502,6 @@ class Case:
         if twin is not None:
             self.check_twin(twin, agent, twin_since, g)
             twin = None
-            gc.collect()
             if self.problems:
                 return
         g0 = g
@@ -536,8 +546,8 @@ class Case:
     def check_twin(self, twin, agent, since, g_agent):
         """the agent restored in generation `since` and the never-restored original went through the same
         further history: they must still agree (continued learning / acting / mutation after a restore)"""
-        self.problems += compare(twin, agent, f"after the same further history the agent restored in checkpoint "
-                                              f"generation {since} vs the never-restored original", None, g_agent)
+        self.problems += compare(twin, agent, f"after the same further history: the never-restored original vs the "
+                                              f"agent restored in checkpoint generation {since} (first = lock-step twin)", None, g_agent)
         if not self.problems:
             self.tags.append("lockstep-after-restore-checked")
 
@@ -594,24 +604,45 @@ class Case:
         if not same_value(acts[0], acts[2]):
             self.problems.append("the agent restored by load_checkpoint() picks different greedy actions than the original")
         # same future
+        ga = measure(agent) if self.wrapper else g0b     # acting moved a wrapper's statistics (on all three alike)
         for s in range(LEARN_STEPS):
-            snap0 = values(measure(agent))
+            snap0 = values(ga)
             A.learn_once(new, self.algo, self.family, seed=900 + s)
-            if values(measure(agent)) != snap0:
-                self.problems.append("training the restored agent changed the original (independence broken)")
             A.learn_once(other, self.algo, self.family, seed=900 + s)
+            if values(measure(agent)) != snap0:
+                self.problems.append("training the restored agents changed the original (independence broken)")
             A.learn_once(agent, self.algo, self.family, seed=900 + s)
-            d = compare(agent, new, f"after {s + 1} identical learn step(s): load() vs original") + \
-                compare(agent, other, f"after {s + 1} identical learn step(s): load_checkpoint() vs original")
+            ga, g1, g2 = measure(agent), measure(new), measure(other)
+            d = compare(agent, new, f"after {s + 1} identical learn step(s): load() vs original", ga, g1) + \
+                compare(agent, other, f"after {s + 1} identical learn step(s): load_checkpoint() vs original", ga, g2)
             if d:
                 self.problems += d
                 return
         self.tags.append("same-future-checked")
-        # a load after the original has moved on still yields the state at save time
+        # the same file loaded AGAIN, by both paths, after the earlier restored agents (and the original) have trained
+        # on: each further load must equal the original at save time and share nothing with anybody
         A.seed_all(self.seed + 99)
         late = type(inner_of(agent)).load(path)
-        if values(measure(late)) != v_at_save or plain_state(late) != p_at_save:
-            self.problems.append("a second load of the same file differs from the state at save time")
+        late2 = self.build(self.seed + 3000, other=True)
+        late2.load_checkpoint(path)
+        gl = {0: ga, 1: g1, 2: g2, 3: measure(late), 4: measure(late2)}
+        label = {0: "original", 1: "first load()", 2: "first load_checkpoint()", 3: "second load()", 4: "second load_checkpoint()"}
+        for i, x in ((3, late), (4, late2)):
+            if values(gl[i]) != v_at_save:
+                bad = [n for n in names if values(gl[i]).get(n) != v_at_save.get(n)]
+                self.problems.append(f"the {label[i]} of the same file, after earlier restored agents trained on, differs from "
+                                     f"the state at save time in {bad[:3]}")
+            px = plain_state(x)
+            for k in sorted(set(px) | set(p_at_save)):
+                if px.get(k) != p_at_save.get(k):
+                    self.problems.append(f"the {label[i]} of the same file differs from the state at save time: {k}: "
+                                         f"{short(p_at_save.get(k))} vs {short(px.get(k))}")
+        lp = walker.alias_pairs({i: flat_groups(gx) for i, gx in gl.items()})
+        if lp:
+            i, a, j, b = sorted(lp)[0]
+            self.problems.append(f"{label[i]} and {label[j]} of the same file share mutable state: {a} ~ {b}")
+        if not self.problems:
+            self.tags.append("reload-after-training-checked")
 
     @staticmethod
     def model_obs(view_at_save: str, tail: list[str]) -> list[str]:
@@ -645,7 +676,7 @@ def gen_history(rng: random.Random, length: int, algo: str, wrapper):
             ops.append(["reclone"])
         else:
             # an earlier checkpoint generation: save -> restore -> the history goes on with the restored agent
-            ops.append(["restore", rng.choice(["load", "load", "inplace", "inplace", "rollback"])])
+            ops.append(["restore", rng.choice(["load", "inplace", "keep", "keep", "rollback"])])
     # usually end with training, so that optimizer moments exist and targets lag behind at the save
     if rng.random() < 0.8:
         ops.append(["learn", rng.randrange(1000)])
@@ -698,7 +729,9 @@ def run_case(chk, case):
     algo, fam, share, wrapper, seed, ops = case
     c = Case(chk, algo, fam, share, wrapper, seed, ops)
     res = c.run()
-    gc.collect()
+    run_case.n = getattr(run_case, "n", 0) + 1
+    if run_case.n % 6 == 0:
+        gc.collect()
     return res
 
 
